@@ -9,5 +9,6 @@ func init() {
 			ruleOwnerLocals(r, []string{"simpledb", "sstables", "wal", "memstore", "recordio", "recordio/proto"})
 			ruleEvict(r)
 			ruleJoin(r)
+			ruleCloseFlushes(r)
 		})
 }
